@@ -29,3 +29,12 @@ chk("C05", "differential (relational) monitor across aliasing patterns: the same
 chk("C06", "purity monitor: destination pre-state differential, bit-for-bit operand/Context snapshots through the VerifRepr hook, shared-state fingerprint hook, canary calls re-evaluated over the process history",
     "Exploration: each call is executed into a fresh destination and into destinations that previously held NaN/sNaN/Inf/huge/inline values; operands are snapshotted including the BigInt inline/heap representation; the fingerprint of all package-level constants and tables is compared throughout the run; 64 canary calls are re-evaluated after every workload family.",
     "Trusted: the read-only hooks VerifRepr/VerifSharedState (verif build tag).", "DESIGN.md 4/C06")
+chk("C03", "differential monitor across trap sets (the untrapped run of the same call is the oracle) + ErrDecimal sequence model + logical loop-iteration budget through the tick hook, in serial child processes",
+    "Exploration: every Context operation and context-aware parsing run with Traps=0 and then under 18 trap sets (thorough: all 4096 for 20000 sampled cases, exhaustive over the trap-set dimension for those); error <=> trapped/system condition for the single-rounding operations, implications for the composite ones, result delivered alongside trap errors, no non-termination under any trap set (decided by loop ticks, not wall time); ErrDecimal mirrored by direct calls over random method sequences.",
+    "Trusted: the tick hook call sites cover every data-dependent loop of the package (listed in MANIFEST hooks commit); a loop added without a tick is covered only by the wall-clock watchdog (inconclusive).", "DESIGN.md 4/C03")
+chk("C04", "crash/hang monitor in serial child processes (recover, loop-tick budget, journal + confirmation re-run for fatal errors) + structural invariant on parsed values",
+    "Exploration: 2.4e5 (quick) / 2.4e7 (thorough) calls spread over all exported entry points with hostile contexts, special values, limit exponents, precisions up to 10000 digits, grammar/mutated/random strings, random fmt verbs, BigInt method sequences; any panic, loop-budget overrun or process death is a violation; parsed values are checked for non-negative coefficient, valid form and in-range exponents.",
+    "Trusted: as C03 for the tick hook. 'Fails to return' is decided as exceeding 2e7 loop ticks per call.", "DESIGN.md 4/C04")
+chk("C16", "lock-step model-based monitor over method sequences with math/big.Int as the executable model + representation invariants through the VerifRepr hook",
+    "Exploration: pools of 6 BigInt slots mirrored by big.Int, sequences of 30-200 calls over 47 method groups with all aliasing patterns, values dense at the 64/128-bit boundaries; all slots compared after every call; no negative zero, inline words equal |value|, no shared heap big.Int; MathBigInt results stable across later mutation, stack growth and GC.",
+    "Trusted: math/big.Int is the specification (its own stale-neg-flag zero from GCD is normalised in the mirror).", "DESIGN.md 4/C16")
